@@ -42,6 +42,7 @@ def light_zoo():
         ("logreg", LogisticRegression().fit(X, y)),
         ("pipe", Pipeline([("s", StandardScaler()), ("c", SGDClassifier(max_iter=5, tol=None, random_state=0))]).fit(X, y)),
         ("ft", FunctionTransformer(np.sqrt)), ("partial", partial(np.add, 1)), ("getter", operator.itemgetter(1)),
+        ("methodcaller-user", [operator.methodcaller("f", U.Plain(1, 2)), operator.attrgetter("a.b"), {"t": int}]),
         ("rs", np.random.RandomState(3)), ("gen", np.random.default_rng(4)), ("sparse", sp.csr_matrix(np.eye(3))),
         ("method", StandardScaler().fit(X).transform), ("user", {"p": U.Plain(1, [2]), "q": [U.WithGetstate(3)]}),
         ("user2", U.Plain(np.arange(3), {"k": U.Plain(1, 2)})),
